@@ -381,7 +381,7 @@ WF(i) ==
 -----------------------------------------------------------------------------
 (* Meaning of a printed assembly line: mnemonic + operand tokens in textual  *)
 (* order (chapter "RISC-V Assembly Programmer's Handbook", incl. the table   *)
-(* of pseudo-instructions).  An operand token is [k, v, s]:                  *)
+(* of pseudo-instructions).  An operand token is <<k, v, s>>:                *)
 (*   k = "r" integer register v      k = "i" integer literal v               *)
 (*   k = "c" CSR named s             k = "l" symbol s (v = S - P as integer) *)
 (*   k = "m" relocation modifier s ("pcrel_hi" / "pcrel_lo")                 *)
@@ -389,7 +389,7 @@ WF(i) ==
 (* The result is the instruction the line denotes (not necessarily           *)
 (* encodable: see WF), or NoAsm when the line is not in the modelled syntax. *)
 NoAsm == Ins("noasm", 0, 0, 0, 0, 0)
-Kinds(ops) == Mk([j \in 1..Len(ops) |-> ops[j].k])
+Kinds(ops) == Mk([j \in 1..Len(ops) |-> ops[j][1]])
 \* CSR addresses (Volume II, "CSR Listing"; Volume I "Zicntr")
 CsrNum(s) == CASE s = "mstatus" -> 768 [] s = "misa" -> 769 [] s = "mie" -> 772 [] s = "mtvec" -> 773
                [] s = "mscratch" -> 832 [] s = "mepc" -> 833 [] s = "mcause" -> 834 [] s = "mtval" -> 835
@@ -404,9 +404,9 @@ Four == <<4, 0, 0, 0>>
 \* spellings that differ from the manual's mnemonic (the operation is the same)
 Spelling(m) == CASE m = "c.bneqz" -> "c.bnez" [] m = "bneq" -> "bne" [] OTHER -> m
 
-Asm(mn0, ops, sym, pc) ==
+Asm0(mn0, ops, sym, pc) ==
     LET m == Spelling(mn0)  ks == Kinds(ops)  n == Len(ops)
-        v(j) == ops[j].v
+        v(j) == ops[j][2]
         rrr == ks = <<"r", "r", "r">>   rri == ks = <<"r", "r", "i">>   rir == ks = <<"r", "i", "r">>
         rrl == ks = <<"r", "r", "l">>   rr == ks = <<"r", "r">>         ri == ks = <<"r", "i">>
         rl == ks = <<"r", "l">>         r1 == ks = <<"r">>              l1 == ks = <<"l">>
@@ -425,7 +425,7 @@ Asm(mn0, ops, sym, pc) ==
     ELSE IF m \in {"slli", "srli", "srai"} THEN IF rri THEN Ins(m, v(1), v(2), 0, v(3), 4) ELSE NoAsm
     ELSE IF InTab(LoadMn, m) THEN
         IF rir THEN Ins(m, v(1), v(3), 0, v(2), 4)
-        ELSE IF ks = <<"r", "m", "l", "r">> /\ ops[2].s = "pcrel_lo"
+        ELSE IF ks = <<"r", "m", "l", "r">> /\ ops[2][3] = "pcrel_lo"
              THEN Ins(m, v(1), v(4), 0, Lo12(WAdd(WSub(sym, pc), Four)), 4)
         ELSE NoAsm
     ELSE IF InTab(StoreMn, m) THEN IF rir THEN Ins(m, 0, v(3), v(1), v(2), 4) ELSE NoAsm
@@ -442,22 +442,22 @@ Asm(mn0, ops, sym, pc) ==
     ELSE IF m = "lui" THEN IF ri THEN Ins("lui", v(1), 0, 0, v(2), 4)
                            ELSE IF rl THEN Ins("lui", v(1), 0, 0, Hi20(sym), 4) ELSE NoAsm     \* lui rd, %hi(sym)
     ELSE IF m = "auipc" THEN IF ri THEN Ins("auipc", v(1), 0, 0, v(2), 4)
-                             ELSE IF ks = <<"r", "m", "l">> /\ ops[2].s = "pcrel_hi"
+                             ELSE IF ks = <<"r", "m", "l">> /\ ops[2][3] = "pcrel_hi"
                                   THEN Ins("auipc", v(1), 0, 0, Hi20(WSub(sym, pc)), 4) ELSE NoAsm
     ELSE IF m = "mv" THEN IF rr THEN Ins("addi", v(1), v(2), 0, 0, 4) ELSE NoAsm
     ELSE IF m = "nop" THEN IF n = 0 THEN Ins("addi", 0, 0, 0, 0, 4) ELSE NoAsm
     ELSE IF m \in {"ecall", "ebreak", "mret"} THEN IF n = 0 THEN Ins(m, 0, 0, 0, 0, 4) ELSE NoAsm
     ELSE IF m \in {"csrrw", "csrrs", "csrrc"} THEN
-        IF ks = <<"r", "c", "r">> THEN Ins(m, v(1), v(3), 0, CsrNum(ops[2].s), 4) ELSE NoAsm
+        IF ks = <<"r", "c", "r">> THEN Ins(m, v(1), v(3), 0, CsrNum(ops[2][3]), 4) ELSE NoAsm
     ELSE IF m \in {"csrrwi", "csrrsi", "csrrci"} THEN
-        IF ks = <<"r", "c", "i">> THEN Ins(m, v(1), v(3), 0, CsrNum(ops[2].s), 4) ELSE NoAsm
-    ELSE IF m = "csrr" THEN IF ks = <<"r", "c">> THEN Ins("csrrs", v(1), 0, 0, CsrNum(ops[2].s), 4) ELSE NoAsm
+        IF ks = <<"r", "c", "i">> THEN Ins(m, v(1), v(3), 0, CsrNum(ops[2][3]), 4) ELSE NoAsm
+    ELSE IF m = "csrr" THEN IF ks = <<"r", "c">> THEN Ins("csrrs", v(1), 0, 0, CsrNum(ops[2][3]), 4) ELSE NoAsm
     ELSE IF m \in {"csrw", "csrs", "csrc"} THEN
         IF ks = <<"c", "r">> THEN Ins(CASE m = "csrw" -> "csrrw" [] m = "csrs" -> "csrrs" [] OTHER -> "csrrc",
-                                      0, v(2), 0, CsrNum(ops[1].s), 4) ELSE NoAsm
+                                      0, v(2), 0, CsrNum(ops[1][3]), 4) ELSE NoAsm
     ELSE IF m \in {"csrwi", "csrsi", "csrci"} THEN
         IF ks = <<"c", "i">> THEN Ins(CASE m = "csrwi" -> "csrrwi" [] m = "csrsi" -> "csrrsi" [] OTHER -> "csrrci",
-                                      0, v(2), 0, CsrNum(ops[1].s), 4) ELSE NoAsm
+                                      0, v(2), 0, CsrNum(ops[1][3]), 4) ELSE NoAsm
     ELSE IF counter >= 0 THEN IF r1 THEN Ins("csrrs", v(1), 0, 0, counter, 4) ELSE NoAsm
     \* ---- compressed (operands of the expansion, see Decode16) ----
     ELSE IF InTab(CAluMn, m) THEN IF rr THEN Ins(m, v(1), v(1), v(2), 0, 2) ELSE NoAsm
@@ -485,6 +485,9 @@ Asm(mn0, ops, sym, pc) ==
     ELSE IF m = "c.addi16sp" THEN IF ks = <<"i">> THEN Ins(m, 2, 2, 0, v(1), 2)
                                   ELSE IF ri THEN Ins(m, v(1), v(1), 0, v(2), 2) ELSE NoAsm
     ELSE NoAsm
+
+\* an unknown CSR name is outside the modelled syntax
+Asm(mn0, ops, sym, pc) == LET r == Asm0(mn0, ops, sym, pc) IN IF InTab(CsrMn, r.mn) /\ r.imm < 0 THEN NoAsm ELSE r
 
 \* Does the denoted instruction exist as an encoding?  (C10: if not, the tool must refuse.)
 \* For the U-type pattern operand both readings are encodable (see FieldRange).
@@ -581,4 +584,43 @@ Writes(i0) == LET i == Expand(i0) IN (IF HasRd(i.mn) THEN {i.rd} ELSE {}) \ {0}
 \* loads/stores, c.addi4spn, c.addi16sp use x2; c.jal / c.jalr link through x1)
 ImplicitSP(i0) == IF i0.mn \in {"c.lwsp", "c.swsp", "c.addi4spn", "c.addi16sp"} THEN {2} ELSE {}
 Modelled(i0) == Expand(i0).mn \in (Mn32 \ {"ecall", "ebreak", "mret", "csrrw", "csrrs", "csrrc", "csrrwi", "csrrsi", "csrrci"})
+
+-----------------------------------------------------------------------------
+(* C07: the two clauses about declared register sets, stated on Exec.        *)
+(* declR / declW: sets of register numbers an instruction is DECLARED to     *)
+(* read / write (by the manual: Reads / Writes; by ppci: used_registers /    *)
+(* defined_registers + clobbers).                                            *)
+XRegs == 1..31
+\* (i) executing changes no register outside declW
+NoUndeclaredWrite(s, i, declW) ==
+    LET t == Exec(s, i) IN t.st = "ok" => \A r \in XRegs \ declW : t.x[r + 1] = s.x[r + 1]
+\* (ii) for two states agreeing on declR (+ pc, memory; x2 where the instruction names it implicitly),
+\* the declared outputs, the memory effect and the control transfer coincide
+SameOutputs(s1, s2, i, declW) ==
+    LET t1 == Exec(s1, i)  t2 == Exec(s2, i) IN
+    (t1.st = "ok" /\ t2.st = "ok") =>
+        /\ \A r \in declW \cap XRegs : t1.x[r + 1] = t2.x[r + 1]
+        /\ t1.mem = t2.mem
+        /\ t1.pc = t2.pc
+
+\* ---- machine states for the checks (deterministic families indexed by small integers) ----
+Interesting == << <<0, 0, 0, 0>>, <<255, 255, 255, 255>>, <<0, 0, 0, 128>>, <<255, 255, 255, 127>>,
+                  <<1, 0, 0, 0>>, <<0, 8, 0, 0>>, <<120, 86, 52, 18>>, <<254, 255, 255, 255>> >>
+RandWord(seed, r) == Mk([k \in 1..4 |-> (r * 37 + seed * 11 + k * 101 + r * r * 7 + seed * k * 3) % 256])
+\* shape 0: every register a different pseudo-random word; shape k >= 1: every register = Interesting[k]
+BaseState(seed, shape) ==
+    [pc  |-> <<(seed * 4) % 256, 16, 64, 0>>,
+     x   |-> Mk([k \in 1..32 |-> IF k = 1 THEN WZero(4)
+                                 ELSE IF shape = 0 THEN RandWord(seed, k - 1) ELSE Interesting[shape]]),
+     mem |-> [salt |-> seed, ov |-> << >>]]
+\* change every register outside `keep` (and x0): mode 0 complement, 1 increment, 2 decrement
+Perturb(s, keep, mode) ==
+    [s EXCEPT !.x = Mk([k \in 1..32 |->
+        IF k = 1 \/ (k - 1) \in keep THEN s.x[k]
+        ELSE IF mode = 0 THEN WNot(s.x[k])
+        ELSE IF mode = 1 THEN WAdd(s.x[k], WOne(4))
+        ELSE WSub(s.x[k], WOne(4))])]
+\* the state pairs every instruction is run on: <<seed, shape, mode>>
+PairPlan == << <<1, 0, 0>>, <<2, 0, 1>>, <<3, 1, 1>>, <<4, 2, 1>>, <<5, 3, 2>>, <<6, 4, 0>>, <<7, 5, 2>>,
+               <<8, 7, 0>>, <<9, 8, 1>>, <<10, 6, 0>>, <<11, 0, 2>>, <<12, 4, 1>> >>
 =============================================================================
